@@ -35,7 +35,10 @@ FDefs == [
   F14 |-> VFn(<<"a">>, <<A, PLUS>> \o Call1("G", <<VA>>)),
   F15 |-> Fn(<<"a", "b">>, <<Num("1"), HH, A, HH, Bp, PLUS, A>>),
   F16 |-> VFn(<<>>, <<HASH, VA>>),
-  F17 |-> Fn(<<"a">>, <<Id("O"), A>>) ]
+  F17 |-> Fn(<<"a">>, <<Id("O"), A>>),
+  \* the macro's own name inside an ARGUMENT of another macro in its replacement list: the argument is
+  \* pre-expanded while F is still being replaced, so the inner F must stay unexpanded (and painted)
+  F18 |-> Fn(<<"a">>, <<A, PLUS>> \o Call1("G", Call1("F", <<A>>))) ]
 GDefs == [
   G0 |-> Obj(<<>>),   \* placeholder: slot unused
   G1 |-> Fn(<<"x">>, <<X>>),
@@ -55,7 +58,8 @@ ODefs == [
   O5 |-> Obj(<<Num("2"), PLUS, Id("O")>>),
   O6 |-> Obj(<<>>),                   \* defined empty
   O7 |-> Obj(<<Num("1"), CM, Num("2")>>),
-  O8 |-> Obj(<<Id("G")>>) ]
+  O8 |-> Obj(<<Id("G")>>),
+  O9 |-> Obj(Call1("G", <<Id("O")>>) \o <<PLUS, Num("1")>>) ]   \* self-reference inside an argument
 
 Invs == [
   I1  |-> Call1("F", <<Num("1")>>),
@@ -106,7 +110,7 @@ Invs == [
   \* a function-like macro name passed as argument ends the replacement list; its "(" follows the invocation
   I43 |-> Call1("F", <<Id("G")>>) \o <<LP, Num("1"), RP>> ]
 
-Sel == CASE Profile = "q" -> [f |-> DOMAIN FDefs, g |-> {"G0", "G1", "G2", "G4", "G6"}, o |-> {"O0", "O1", "O4", "O3", "O6", "O7"}, i |-> DOMAIN Invs]
+Sel == CASE Profile = "q" -> [f |-> DOMAIN FDefs, g |-> {"G0", "G1", "G2", "G4", "G6"}, o |-> {"O0", "O1", "O4", "O3", "O6", "O7", "O9"}, i |-> DOMAIN Invs]
          [] Profile = "t" -> [f |-> DOMAIN FDefs, g |-> DOMAIN GDefs, o |-> DOMAIN ODefs, i |-> DOMAIN Invs]
 
 VARIABLES fsel, gsel, osel, isel, osel2, done
